@@ -23,7 +23,7 @@
          input  L [A 5; tmo ri; tmo T; lock; B data; L sock_script; L sel_script; ...]   output as op 3
    op 6  _retry in a time-indexed environment (IO/RetryEnv.v): the fd becomes ready at tick tau, spurious readiness at
          the ticks `spur`; the callback and the selector are functions of the virtual time
-         input  L [A 6; tmo T; tmo ri; A tau; L [A s ...]]                               output as op 0
+         input  L [A 6; tmo T; tmo ri; A tau; L [A s ...]; (A cost per callback call)]     output as op 0
    op 8  real loopback sockets (TCPNetworkClient.recv_packet / iter_received_packets, StreamEndpoint over real TLS):
          input  L [A 8; A N; A bufsize; A ncalls; tmo T (inf or 0); stream spec (B | L [A seed; A len]); ...]
          output L [L [A 0; digest packet] | L [A code] ...]
@@ -163,6 +163,16 @@ Definition run (i : sx) : sx :=
       do ri <- as_tmo ri; do T <- as_tmo T; do lk <- as_lock lk;
       do script <- as_list_of as_sockans script; do sels <- as_list_of as_selans sels;
       run_dgram_send ri T lk data script sels
+  | L (A 6 :: T :: ri :: A tau :: spur :: A c :: _) =>
+      do T <- as_tmo T; do ri <- as_tmo ri; do spur <- as_list_of as_Z spur;
+      let r := retry_envc (mk_envc (mk_env tau spur) c) (Z.to_nat (Z.max 0 tau) + 3) ri T 0 in
+      let '(code, ret) := match rr_out r with
+                          | ROk _ t => (0, L [of_tmo t])
+                          | RTimeout => (E_TIMEOUT, L [])
+                          | RRaise c => (c, L [])
+                          | RFuel => (9, L [])
+                          end in
+      L [A code; ret; L (map of_wait (rr_waits r)); A (rr_dt r)]
   | L (A 6 :: T :: ri :: A tau :: spur :: _) =>
       do T <- as_tmo T; do ri <- as_tmo ri; do spur <- as_list_of as_Z spur;
       let r := retry_env (mk_env tau spur) (Z.to_nat (Z.max 0 tau) + 3) ri T 0 in
